@@ -11,6 +11,7 @@ From Utp Require Import Sock.Dispatcher Sock.DispObs.
 From Utp Require Import Conn.C10_Pred Conn.C02_Pred.
 From Utp Require Import Conn.C17_Pred Conn.C03_Pred.
 From Utp Require Import Conn.C05_Pred Conn.C06_Pred.
+From Utp Require Import Conn.C07_Pred Conn.C18_Pred.
 From Utp Require Import Conn.Recovery Conn.Msg Conn.VSockRec Conn.VSock Conn.VSockRun Conn.VObs.
 
 Extraction Language OCaml.
@@ -34,5 +35,8 @@ Extraction "model"
   c17_reset_ok c17_reset_trace_ok c03_ready_closed_ok c03_no_hang_ok c03_after_death_ok
   c05_window_ok c05_zero_window_ok c05_rto_single_ok c05_monitor_ok c05_zero_window_strict c05_d16_class
   c06_backoff_ok c06_cap_ok c06_emitted_live_ok c06_fast_retx_ok c06_stable_plen_ok c06_joint_ok
+  ACK_DELAY IMMEDIATE_ACK_EVERY_RMSS
+  c07_immediate_ok c07_pre_monitor c07_delayed_ok c07_fires_ok c07_idle_silent_partial
+  c18_nagle_ok c18_pre_monitor
   dstate_new dstep drun dtrace cleanup_accept_queue push_acceptor c12_step_ok c13_step_ok
   cubic_new cubic_trace c15_obs_ok c15_obs_core f64_view BETA_CUBIC C_CUBIC cbrt_cr.
